@@ -36,7 +36,7 @@ DIRECTIO = ['absent', 0, 1, '1', "'1'", 'absent', 1, 0, '0', "'0'", 1]
 def required(tier):
     b = {f'residue:{k}': 1 for k in range(32)}
     b.update({'residue:0': 4, 'directio:on': 40, 'directio:off': 40, 'template:on': 20, 'template:off': 40, 'override-attempt': 30,
-              'multi-file': 40, 'permutations>=2': 20, 'many-blocks-unpadded': 20, 'directio:string-zero': 20, 'empty-string-value': 10, 'blimpy-consulted': 50, 'aligned+directio': 3})
+              'multi-file': 40, 'permutations>=2': 20, 'many-blocks-unpadded': 20, 're-recorded-same-stem': 50, 'directio:string-zero': 20, 'empty-string-value': 10, 'blimpy-consulted': 50, 'aligned+directio': 3})
     return {'buckets': b, 'counters': {'blocks_parsed': 500, 'reader_comparisons': 500, 'listing_orders_realised': 40},
             'checks': 3000, 'nontrivial': 100}
 
@@ -321,6 +321,36 @@ def _run(stg, raw_utils, c, cfg, tmp, R):
             except SystemExit:
                 R.violate('blimpy-rejects-file', file=fi)
     R.mark_nontrivial(len(all_blocks) >= 2)
+    # ---- history: the SAME stem is recorded again in this process with another configuration and header; the library
+    # readers must describe the bytes that are on disk now, not what they saw before
+    if c['_idx'] % 4 == 0:
+        R.bucket('re-recorded-same-stem')
+        with common.quiet():                  # the library has looked at this very stem before it is overwritten
+            raw_utils.read_header(files[0])
+            raw_utils.get_total_blocks(stem)
+            raw_utils.get_raw_params(stem, start_chan=cfg['start_chan'])
+        for f in files:
+            os.remove(f)
+        cfg2 = dict(cfg, fch1=cfg['fch1'] + 1.25e6, asc=not cfg['asc'], nblocks=int(cfg['nblocks'] % 5 + 1), seed=cfg['seed'] + 1)
+        hd2 = {'DIRECTIO': 0 if dio else 1, 'NEWCARD1': 1, 'NEWCARD2': 'two', 'NEWCARD3': 3.5, 'NEWCARD4': 4, 'NEWCARD5': 5}
+        rec2 = work_raw.do_record(stg, cfg2, stem, header_dict=dict(hd2), load_template=False)
+        try:
+            pf2 = [guppi.parse_file(f) for f in rec2['files']]
+        except guppi.GuppiError as e:
+            R.violate('framing:' + e.key + ':re-recorded', msg=str(e))
+            return
+        h2 = pf2[0][0]['header']
+        with common.quiet():
+            rh2 = raw_utils.read_header(rec2['files'][0])
+            tot2 = raw_utils.get_total_blocks(stem)
+            nb2 = [raw_utils.get_blocks_in_file(f) for f in rec2['files']]
+            rp2 = raw_utils.get_raw_params(stem, start_chan=cfg2['start_chan'])
+        R.check(set(rh2) == set(h2), 'read_header-stale-after-re-recording', missing=sorted(set(h2) - set(rh2))[:5], extra=sorted(set(rh2) - set(h2))[:5])
+        R.check(tot2 == cfg2['nblocks'] and nb2 == [len(b) for b in pf2], 'block-count-readers-stale-after-re-recording', total=int(tot2),
+                want=cfg2['nblocks'], per_file=[int(x) for x in nb2])
+        cb2 = cfg2['sample_rate'] / cfg2['P'] * (1 if cfg2['asc'] else -1)
+        R.check(abs(rp2['fch1'] - cfg2['fch1']) <= 1e-3 and rp2['ascending'] == cfg2['asc'] and abs(rp2['chan_bw'] - cb2) <= 1e-9 * abs(cb2),
+                'get_raw_params-stale-after-re-recording', got=[rp2['fch1'], rp2['chan_bw'], rp2['ascending']], want=[cfg2['fch1'], cb2, cfg2['asc']])
 
 
 def _num_eq(a, b):
